@@ -2,7 +2,8 @@
    Theorems only; each is closed by [exact] of a lemma from proof/ServerHeaders_proofs.v.
    The model (model/ServerHeaders.v) is the server's treatment of a client's frames:
    x/net's readMetaFrame/checkPseudos, http2Server.operateHeaders, the StreamError and
-   ConnectionError paths of HandleStreams, RST_STREAM / empty DATA / WriteStatus. "Never
+   ConnectionError paths of HandleStreams, RST_STREAM / empty DATA / Write + WriteStatus, and
+   loopy's stream-level flow control as far as it delays the END_STREAM of a finished stream. "Never
    panics" is monitored by the driver, not proved. *)
 From Coq Require Import List ZArith Bool.
 From VLib Require Import Codec Machine.
@@ -33,7 +34,8 @@ Print Assumptions C12_accept_implies_legal.
 
 (* "never has more active streams on the connection than MaxConcurrentStreams":
    after ANY list of operations (HEADERS with any fields, RST_STREAM, empty DATA, application
-   finishing a stream, WINDOW_UPDATE stream errors, framer connection errors). *)
+   finishing a stream with or without a message, WINDOW_UPDATEs (zero: stream error; positive:
+   flow-control credit), framer connection errors). *)
 Theorem C12_active_bound : forall cfg ops, 0 <= c_maxs cfg ->
   lenZ (s_active (reach cfg st0 ops)) <= c_maxs cfg.
 Proof. exact active_bound. Qed.
@@ -46,16 +48,56 @@ Theorem C12_refused : forall cfg st sid ended fs,
   s_mode st = 0 -> legal_id (s_max st) sid = true -> admissible (c_limit cfg) fs = true ->
   c_maxs cfg <= lenZ (s_active st) ->
   headers_step cfg st sid ended fs =
-  (mkst sid (s_active st) (s_handled st) (s_mode st) (s_post st), ev_rst sid E_REFUSED).
+  (mkst sid (s_active st) (s_handled st) (s_mode st) (s_post st) (s_win st), ev_rst sid E_REFUSED).
 Proof. exact refused_over_limit. Qed.
 Print Assumptions C12_refused.
+
+(* What "active" means for that limit: a stream handed to a handler stays active until its end is
+   on the wire.  A handler that writes a message which does not fit the stream's send window and
+   returns (WriteStatus) leaves the stream in the active set: only the response HEADERS go out,
+   the count is unchanged - so C12_refused applies to the resulting state ... *)
+Theorem C12_finished_stream_counts_until_flushed : forall cfg st sid n s,
+  s_mode st = 0 -> c_tiny cfg = false -> find_stream sid (s_active st) = Some s -> 0 <= s < 2 ->
+  window cfg st sid < 5 + n ->
+  let r := exec_op cfg st (OWriteFinish sid n) in
+  snd r = ev_hdr sid 1200 (-1) /\ s_active (fst r) = set_stream sid (3 + s) (s_active st) /\
+  lenZ (s_active (fst r)) = lenZ (s_active st) /\ s_handled (fst r) = s_handled st /\
+  s_mode (fst r) = 0 /\ s_max (fst r) = s_max st /\ window cfg (fst r) sid = window cfg st sid - (5 + n).
+Proof. exact blocked_finish_keeps_stream. Qed.
+Print Assumptions C12_finished_stream_counts_until_flushed.
+
+(* ... until a WINDOW_UPDATE lets the queued DATA out: then the END_STREAM trailers (and
+   RST_STREAM(NO_ERROR) if the client had not half-closed) are written and the stream leaves the
+   active set; a smaller WINDOW_UPDATE changes nothing but the credit. *)
+Theorem C12_window_flushes_blocked : forall cfg st sid inc s,
+  s_mode st = 0 -> find_stream sid (s_active st) = Some s -> 3 <= s -> 0 <= window cfg st sid + inc ->
+  exec_op cfg st (OWindow sid inc) =
+  (with_active st (del_stream sid (s_active st)), ev_hdr sid (-1) 0 ++ (if s =? 3 then ev_rst sid E_NO else [])).
+Proof. exact window_flushes_blocked. Qed.
+Print Assumptions C12_window_flushes_blocked.
+Theorem C12_window_too_small : forall cfg st sid inc s,
+  s_mode st = 0 -> find_stream sid (s_active st) = Some s -> window cfg st sid + inc < 0 ->
+  let r := exec_op cfg st (OWindow sid inc) in
+  snd r = [] /\ s_active (fst r) = s_active st /\ window cfg (fst r) sid = window cfg st sid + inc.
+Proof. exact window_too_small. Qed.
+Print Assumptions C12_window_too_small.
+
+(* witness: MaxConcurrentStreams = 1, SETTINGS_INITIAL_WINDOW_SIZE = 0.  Stream 1 is accepted, its
+   handler writes 15 bytes and returns; stream 3 is refused; 14 bytes of window are not enough and
+   stream 5 is refused; one more byte flushes stream 1 and stream 7 is accepted. *)
+Theorem C12_blocked_stream_witness :
+  run [1; 4096; 0; 1] [good_req 1; [9; 1; 10]; good_req 3; [10; 1; 14]; good_req 5; [10; 1; 1]; good_req 7] =
+  Some [[1; 1; 1; 9; 1; 0; 0; 1; 1; 2; 47; 115; -1]; [1; 1; 1; 1; 1; 1200; -1]; [1; 1; 3; 3; 3; 7; 0]; [1; 1; 3];
+        [1; 1; 5; 3; 5; 7; 0]; [0; 1; 5; 1; 1; -1; 0; 3; 1; 0; 0]; [1; 2; 7; 9; 7; 0; 0; 1; 1; 2; 47; 115; -1]].
+Proof. exact blocked_stream_witness. Qed.
+Print Assumptions C12_blocked_stream_witness.
 
 (* an even or non-increasing stream id on a well-formed header block is a connection error:
    GOAWAY(maxStreamID, PROTOCOL_ERROR), the transport stops being reachable ... *)
 Theorem C12_illegal_id_is_conn_error : forall cfg st sid ended fs l,
   read_meta (c_limit cfg) fs = MFrame l false -> (Z.even sid = true \/ sid <= s_max st) ->
   headers_step cfg st sid ended fs =
-  (mkst (s_max st) (s_active st) (s_handled st) 1 (s_post st), out st [7; s_max st; E_PROTOCOL; 0]).
+  (mkst (s_max st) (s_active st) (s_handled st) 1 (s_post st) (s_win st), out st [7; s_max st; E_PROTOCOL; 0]).
 Proof. exact illegal_id_is_conn_error. Qed.
 Print Assumptions C12_illegal_id_is_conn_error.
 
@@ -75,7 +117,7 @@ Proof.
 Qed.
 Print Assumptions C12_no_duplicate_pseudo_header.
 
-(* The predicate evaluated on implementation traces (clauses 1-8) holds on every trace of
+(* The predicate evaluated on implementation traces (clauses 1-8 and 10) holds on every trace of
    the model, for every decodable configuration and operation list. *)
 Theorem C12_holds_on_every_model_trace : forall cfg ops, wf cfg ops = true ->
   exists obs, run cfg ops = Some obs /\ holds_b cfg ops obs = true.
@@ -87,7 +129,7 @@ Print Assumptions C12_holds_on_every_model_trace.
    and never reset, so [content-type: application/grpc; content-type: text] is served. *)
 Theorem C12_mixed_content_type_refuted :
   all_ct_valid mixed_ct_request = false /\
-  s_handled (fst (headers_step (mkcfg 1 4096 false) st0 1 false mixed_ct_request)) = 1.
+  s_handled (fst (headers_step (mkcfg 1 4096 false false) st0 1 false mixed_ct_request)) = 1.
 Proof. exact mixed_content_type_refuted. Qed.
 Print Assumptions C12_mixed_content_type_refuted.
 
